@@ -68,10 +68,13 @@ func zzNewZipIterator(zipFile string) (ZipIterator, error) { return &zzIter{}, n
 func zzZipFileOpen(f *zip.File) (io.ReadCloser, error)     { return zzRC{zzEntryLen[f]}, nil }
 // a minimal file system: the directories that exist (the destination's ancestors, whatever MkdirAll made) and the
 // files of the source tree can be opened; creating a file where a directory exists fails
-var zzDirs = []string{"/", "/dst", "/dst/out", "/d", "/tmp", "/s"}
+var zzDirs = []string{"/", "/dst", "/dst/out", "/d", "/tmp", "/s", "."}
 
 func zzIsDir(name string) bool {
 	c := filepath.Clean(name)
+	if c == ".." || (len(c) > 3 && c[len(c)-3:] == "/..") {
+		return true // the parent of a directory is a directory
+	}
 	for _, d := range zzDirs {
 		if c == d {
 			return true
@@ -154,6 +157,19 @@ func zzWalk(root string, fn filepath.WalkFunc) error {
 	return nil
 }
 
+// zzInsideRef: the cleaned path p lies in the cleaned directory d (or is d), also for the root and for the
+// current directory, where "inside" cannot be read off a textual prefix
+func zzInsideRef(d, p string) bool {
+	abs := len(p) > 0 && p[0] == '/'
+	switch d {
+	case "/":
+		return abs
+	case ".":
+		return !abs && p != ".." && !(len(p) >= 3 && p[:3] == "../")
+	}
+	return zzInside(d, p)
+}
+
 func zzInside(dir, p string) bool {
 	return p == dir || (len(p) > len(dir) && p[:len(dir)] == dir && p[len(dir)] == '/')
 }
@@ -177,31 +193,37 @@ func zzC20Unzip() {
 		// the destination may already hold a (longer) file under this name from an earlier extraction
 		pre[i] = vChoose("preExisting", 2) == 1
 	}
+	// the destination as the caller spells it: absolute, the current directory in two spellings, relative with a
+	// trailing slash, the root
+	destForm := vChoose("destForm", vParam("DESTS"))
+	destSpelled := []string{"/dst/out", ".", "./", "out/", "/"}[destForm]
 	if vNative() {
-		zzC20UnzipNative(names, lens, pre)
+		if destSpelled != "/" { // the real root is not ours to write to
+			zzC20UnzipNative(names, lens, pre, destSpelled)
+		}
 		return
 	}
-	destDir := "/dst/out"
+	destDir := filepath.Clean(destSpelled)
 	zzEntries = nil
 	for i, n := range names {
 		zf := &zip.File{FileHeader: zip.FileHeader{Name: n}}
 		zzEntryLen[zf] = lens[i]
 		zzEntries = append(zzEntries, zf)
 		if pre[i] {
-			if w := filepath.Join(destDir, n); zzInside(destDir, w) && !zzIsDir(w) {
+			if w := filepath.Join(destDir, n); zzInsideRef(destDir, w) && !zzIsDir(w) {
 				zzFileLen[w] = 2
 			}
 		}
 	}
 	zzMade, zzCreated = nil, nil
-	err := UnzipToFolder("/tmp/a.zip", destDir)
+	err := UnzipToFolder("/tmp/a.zip", destSpelled)
 	vReach("unzipped")
 	_ = err
 	for _, p := range zzMade {
-		vAssert(zzInside(destDir, filepath.Clean(p)), "UnzipToFolder created a directory outside the destination directory")
+		vAssert(zzInsideRef(destDir, filepath.Clean(p)), "UnzipToFolder created a directory outside the destination directory")
 	}
 	for _, p := range zzCreated {
-		vAssert(zzInside(destDir, filepath.Clean(p)), "UnzipToFolder created a file outside the destination directory")
+		vAssert(zzInsideRef(destDir, filepath.Clean(p)), "UnzipToFolder created a file outside the destination directory")
 	}
 	// entries that stay inside are extracted to destDir + name
 	if err == nil {
@@ -210,7 +232,7 @@ func zzC20Unzip() {
 				continue
 			}
 			want := filepath.Join(destDir, n)
-			if !zzInside(destDir, want) {
+			if !zzInsideRef(destDir, want) {
 				continue
 			}
 			found := false
@@ -233,13 +255,27 @@ func zzC20Unzip() {
 }
 
 // native twin: a real archive with these entry names, a real destination, and a look at the file system
-func zzC20UnzipNative(names []string, lens []int, pre []bool) {
+func zzC20UnzipNative(names []string, lens []int, pre []bool, destSpelled string) {
 	root, err := os.MkdirTemp("", "zzc20")
 	if err != nil {
 		panic("VERIF-DIVERGED: " + err.Error())
 	}
 	defer os.RemoveAll(root)
+	// destDir: where the destination is, absolutely; destArg: what UnzipToFolder is given
 	destDir := filepath.Join(root, "dst", "out")
+	destArg := destDir
+	if destSpelled[0] != '/' {
+		// a relative destination: the working directory is <root>/dst/cwd for the duration of the call
+		cwd := filepath.Join(root, "dst", "cwd")
+		os.MkdirAll(cwd, 0755)
+		old, err := os.Getwd()
+		if err != nil || os.Chdir(cwd) != nil {
+			panic("VERIF-DIVERGED: chdir")
+		}
+		defer os.Chdir(old)
+		destDir = filepath.Join(cwd, destSpelled)
+		destArg = destSpelled
+	}
 	os.MkdirAll(destDir, 0755)
 	zf := filepath.Join(root, "a.zip")
 	f, _ := os.Create(zf)
@@ -258,7 +294,7 @@ func zzC20UnzipNative(names []string, lens []int, pre []bool) {
 	}
 	zw.Close()
 	f.Close()
-	uerr := UnzipToFolder(zf, destDir)
+	uerr := UnzipToFolder(zf, destArg)
 	filepath.Walk(root, func(p string, info os.FileInfo, err error) error {
 		if err != nil || p == zf || p == root {
 			return nil
